@@ -66,14 +66,18 @@ pub struct Plan {
 pub fn draw_plan(flavour: Flavour, base: &ExecLike, max_faults: u32, only_nullable_fields: bool) -> Plan {
     let fmap = field_map(&[&base.log]);
     let mut cands: Vec<(String, bool)> = fmap.keys().map(|p| (p.clone(), false)).collect();
-    if flavour == Flavour::Dynamic && !only_nullable_fields {
+    if !only_nullable_fields {
         for p in list_item_paths(&base.data) {
-            // item faults only where the library can recognise an invalid item
+            // item faults only where an item can fail on its own: dynamic - where the library can
+            // recognise an invalid item; static - lists whose items are `Result`s
             let field_path = strip_trailing_indices(&p);
             if let Some((parent, field, _, _)) = fmap.get(&field_path) {
                 if let Some(def) = field_def(parent, field) {
-                    if matches!(def.ret, Ret::Int | Ret::Ent | Ret::Uni) {
-                        // only innermost items (the element type is the named type)
+                    let ok = match flavour {
+                        Flavour::Dynamic => matches!(def.ret, Ret::Int | Ret::Ent | Ret::Uni),
+                        Flavour::Static => super::world::STATIC_ITEM_FAULT_FIELDS.contains(&def.name),
+                    };
+                    if ok {
                         cands.push((p, true));
                     }
                 }
